@@ -114,7 +114,7 @@ def cargo_build(nan_boxing=False, release=False, bin="vharness"):
 
 def _run_shard(args):
     harness, reqs, timeout = args
-    cmd = [harness] if os.path.basename(harness) == "vh_runchk" else [harness, "runbatch"]
+    cmd = [harness] if os.path.basename(harness) in ("vh_runchk", "vh_runpoison") else [harness, "runbatch"]
     """reqs: list of request lines for `vharness runbatch`. Returns list of dict (one per request)."""
     out = []
     i = 0
